@@ -62,6 +62,22 @@ class Facts:
         if _os.environ.get("VERIF_NO_DESUGAR") != "1":
             from . import desugar
             self.desugared = desugar.desugar(self.raw)
+            if self.crate == "grenad" and self.version != "0.4.7":
+                # desugaring turns `x.map(helper)` into a call of `helper`: splice new helpers again, and
+                # desugar what their bodies brought in, until nothing changes
+                from . import inline
+                inl_closures = set(self.raw.get("_inlined_closures", []))
+                for _ in range(3):
+                    more = inline.inline_unknown_helpers(self.raw)
+                    if not more:
+                        break
+                    self.inlined += more
+                    spliced = {callee for caller, callee in self.inlined}
+                    self.unknown_fns = {p for p in inline.unknown_local_fns(self.raw) if p in spliced}
+                    self.value_refs = inline.value_referenced(self.raw, self.unknown_fns)
+                    self.desugared += desugar.desugar(self.raw)
+                    inl_closures |= set(self.raw.get("_inlined_closures", []))
+                self.raw["_inlined_closures"] = sorted(inl_closures)
         self.bodies = [Body(b, self) for b in self.raw["bodies"]]
         self.by_path = defaultdict(list)
         for b in self.bodies:
@@ -1019,6 +1035,8 @@ def _constructed_payload(e, variant, fidx):
                     outs.append(cc.a[fidx])
                 # constructions of other variants cannot be observed under this downcast
                 continue
+            if cc.k == "call" and cc.x["path"].endswith("::from_residual") and variant in ("Ok", "Some"):
+                continue    # `?`'s error value: an Err / None by construction, never observed under Ok / Some
             sub = _constructed_payload(cc, variant, fidx) if cc.k == "phi" else None
             if sub is not None:
                 outs.append(sub)
